@@ -43,7 +43,7 @@ def job_items(small_only=False):
     empty_if_switch = st.tuples(st.integers(0, 3), st.integers(1, 3), st.sampled_from(["hold", "end", "return"]), st.integers(0, 2), st.booleans()).map(_empty_if_then_switch)
     if small_only:
         return weighted((1, p_item), (3, s_item), (1, memo), (1, empty_if_switch))
-    return weighted((2, p_item), (4, s_item), (1, deep_item()), (1, failing_item()), (1, memo), (1, empty_if_switch))
+    return weighted((4, p_item), (8, s_item), (2, deep_item()), (2, failing_item()), (2, memo), (2, empty_if_switch), (1, wide_item()))
 
 
 def _empty_if_then_switch(t):
@@ -100,6 +100,23 @@ def deep_item():
     return st.integers(340, 420).map(mk)
 
 
+def wide_item():
+    """sizes: a script of 200-420 small routines (real scripts have hundreds of coroutines) - whatever the decompiler keeps
+    per routine or per graph (tables, caches with a capacity) is only stressed by inputs this wide"""
+    def mk(t):
+        n, step = t
+        routines = []
+        for i in range(n):
+            body = [{"k": "op", "name": f"w_{i}", "args": [], "ctx": None}]
+            if i % step == 0:
+                body = [{"k": "if", "not": False, "conds": [{"c": "neg", "not": False, "kw": "debug"}], "body": [{"k": "op", "name": f"wi_{i}", "args": [], "ctx": None}],
+                         "elifs": [], "else": [{"k": "op", "name": f"we_{i}", "args": [], "ctx": None}]}] + body
+            routines.append({"kind": "def", "id": i, "name": None, "target": None, "alias": False, "body": body + [{"k": "ctl", "v": "return"}]})
+        return {"kind": "ssb", "wide": n, "case": {"stratum": 1, "gaps": [0], "prog": {"imports": [], "macros": [], "routines": routines}}}
+
+    return st.tuples(st.integers(200, 420), st.integers(1, 9)).map(mk)
+
+
 def strategy(tier):
     sched_case = st.fixed_dictionaries({
         "mode": st.just("sched"),
@@ -114,7 +131,13 @@ def strategy(tier):
     # filled class attributes live; run in a fresh interpreter (cold) or after the reference run (sched)
     lock_case = st.tuples(job_items(small_only=True), st.integers(2, 4), st.integers(1, 6), st.sampled_from(["cold", "cold", "sched"])).map(
         lambda t: {"mode": t[3], "jobs": [t[0]] * t[1], "dup": False, "schedule": [[i, t[2], 0] for i in range(t[1])], "lockstep": True, "max_switches": 60000})
-    return weighted((6, sched_case), (2, free_case), (2, cold_case), (3, lock_case))
+    # inside: one job is parked inside shared-state code (after 1-80 yield points there) for the WHOLE run of another
+    # job, which is a wide one half of the time - what the other job does to shared tables as a whole (clearing,
+    # evicting, rebuilding) happens while the first is in the middle of using them
+    inside_case = st.tuples(job_items(small_only=True), st.one_of(wide_item(), job_items(small_only=True)), st.integers(1, 80), st.booleans()).map(
+        lambda t: {"mode": "sched", "jobs": [t[0], t[1]] if t[3] else [t[1], t[0]], "dup": False, "inside": True,
+                   "schedule": [[0 if t[3] else 1, t[2], 2], [1 if t[3] else 0, 10**7, 0]], "max_switches": 4000})
+    return weighted((6, sched_case), (2, free_case), (2, cold_case), (3, lock_case), (2, inside_case))
 
 
 def make_job(item):
